@@ -54,14 +54,33 @@ def _raw(spec):
         for idx in np.ndindex(*lead):
             labels = np.concatenate(
                 [np.arange(K), rng.randint(0, K, size=max(N - K, 0))])[:N]
+            if spec.get('unbalanced'):
+                # one dominant class, the others hold a few frames each
+                labels = np.concatenate(
+                    [np.repeat(np.arange(K), int(spec['unbalanced'])),
+                     np.zeros(N, dtype=int)])[:N]
             rng.shuffle(labels)
             for k in range(K):
                 A = _cnormal(rng, (D, D))
+                if spec.get('real_valued'):
+                    A = A.real * np.sqrt(2) + 0j
                 # emphasise one direction per class, keep full rank
                 v = _cnormal(rng, (D, 1))
                 A = A * 0.4 * cond + 2.0 * v @ v.conj().T / np.sqrt(D)
                 n = int(np.sum(labels == k))
-                a[idx][labels == k] = _cnormal(rng, (n, D)) @ A.T
+                e = _cnormal(rng, (n, D))
+                if spec.get('real_valued'):
+                    # real-valued data handed over as complex (imaginary part 0)
+                    e = e.real * np.sqrt(2) + 0j
+                    v = v.real + 0j
+                    A = A.real + 0j
+                a[idx][labels == k] = e @ A.T
+            if spec.get('duplicates'):
+                # exactly repeated observations
+                m = max(1, int(float(spec['duplicates']) * N))
+                src = rng.randint(0, N, size=m)
+                dst = rng.randint(0, N, size=m)
+                a[idx][dst] = a[idx][src]
             a[idx] *= np.exp(rng.uniform(-1, 1, size=(N, 1)))
             dr = float(spec.get('dynamic_range', 0))
             if dr:
@@ -99,6 +118,15 @@ def _raw(spec):
         # peaked but strictly positive
         a = rng.uniform(0.01, 0.05, size=shape)
         lab = rng.randint(0, shape[-2], size=shape[:-2] + (1,) + shape[-1:])
+        np.put_along_axis(a, lab, 1.0, axis=-2)
+        a = a / a.sum(axis=-2, keepdims=True)
+    elif kind == 'affiliation_peaked':
+        # almost hard labels: 1e-12 everywhere else, strictly positive
+        a = np.full(shape, 1e-12)
+        lab = rng.randint(0, shape[-2], size=shape[:-2] + (1,) + shape[-1:])
+        # every class holds frames in every slice
+        K_ = shape[-2]
+        lab[..., 0, :K_] = np.arange(K_)
         np.put_along_axis(a, lab, 1.0, axis=-2)
         a = a / a.sum(axis=-2, keepdims=True)
     elif kind == 'onehot':
